@@ -1,7 +1,7 @@
 """C18 — every table query on any loaded file is memory-safe.
 
 Proved (lean/ElfioVerif/Props/C18.lean; lemmas Lemmas/TableSafety{,Gnu,Ver,Swap}.lean) about
-Model/TableQuery.lean = the query interfaces as they are after fixes/10..20: the new guards are the generated
+Model/TableQuery.lean = the query interfaces as they are after fixes/10..15, 17..21: the new guards are the generated
 expressions of Gen/SitesC18.lean (`tq_...`, translated from the patched source) in front of / inside the accessor
 families' models (Model/Symbols, Reloc, Arrange, Array, Versym; every raw access a checked read or write).
 Domain `Sec b`: a section as get_data() leaves it in a loaded object - settled, data = none or data = some d with
@@ -37,13 +37,11 @@ Not proved / covered by correspondence only: sequences in which arrange / swap a
 rewrite section data, so C01's invariant "data = file bytes" no longer applies; the harness runs such sequences);
 DT_VERNEEDNUM / DT_VERDEFNUM are read in the driver by the dynamic accessor model (C12) on the section named .dynamic -
 the theorems quantify over ALL counts instead; the output values of the queries (their meaning is C09/C10/C11/C14's
-subject) are compared with the implementation's on every case; with an address translation table get_symbols_num() is
-not bounded by the file size, so the linear fallback of get_symbol(name) on a data-less table may take sh_size/sh_entsize
-(finite, up to 2^60) iterations - it returns, in theory.  The implementation side of memory safety is observed by
+subject) are compared with the implementation's on every case.  The implementation side of memory safety is observed by
 ASan/UBSan/_GLIBCXX_ASSERTIONS and a 5 s alarm per case.
-Findings: F7 (a)-(f) reproduced on the unfixed tree (corpus/c18/*.case) and repaired by fixes/10..20, one defect per
+Findings: F7 (a)-(f) reproduced on the unfixed tree (corpus/c18/*.case) and repaired by fixes/10..15, 17..21, one defect per
 patch; fixes/20 (swap_symbols over a data-less section: 32-bit loop variable vs. 64-bit count) is new.  Reloc.setGeneric
-(C11's model) was updated for fixes/16; the other accessor families' definitions remain the models of the function
+(C11's model) was updated for fixes/21; the other accessor families' definitions remain the models of the function
 bodies behind the new guards, which is all their theorems exercise.
 """
 import os, struct
